@@ -399,6 +399,9 @@ class Machine:
         self.trace_calls.append(fi.qualname)
         self.frame_counter += 1
         self.frame_ids.append(self.frame_counter)
+        is_gen = fi.name != "step" and any(isinstance(n, (ast.Yield, ast.YieldFrom)) for n in _walk_fn(fi.node))
+        if is_gen:
+            env["__yields__"] = []
         try:
             self.block(fi.body(), env, fi)
             r = NONE
@@ -407,6 +410,8 @@ class Machine:
         finally:
             self.depth -= 1
             self.frame_ids.pop()
+        if is_gen:
+            return env["__yields__"]  # a generator helper, evaluated eagerly: the values it yields, in order
         return r
 
     # ------------------------------------------------------------ statements
@@ -452,7 +457,15 @@ class Machine:
             elif isinstance(st, ast.Expr):
                 if isinstance(st.value, ast.Constant):
                     continue
-                if isinstance(st.value, (ast.Yield, ast.YieldFrom)):
+                if isinstance(st.value, ast.Yield):
+                    if "__yields__" in env:
+                        env["__yields__"].append(self.ev(st.value.value, env, fi) if st.value.value is not None else NONE)
+                    continue
+                if isinstance(st.value, ast.YieldFrom):
+                    if "__yields__" in env:
+                        v = self.ev(st.value.value, env, fi)
+                        if isinstance(v, (list, tuple)):
+                            env["__yields__"].extend(v)
                     continue
                 self.ev(st.value, env, fi)
             elif isinstance(st, ast.Delete):
@@ -1391,6 +1404,12 @@ class Machine:
                 return args[0]
             return Opaque(full, True)
         return _NO
+
+
+def _walk_fn(fn):
+    from .loader import walk_no_nested
+
+    return walk_no_nested(fn)
 
 
 class _NOType:
